@@ -135,6 +135,82 @@ def rule_E(ck, owners, rule="E"):
                             "%s performs %s (expected only %s for this source category) at %s" % (fn, other, want, tu.where(sm, bad[0])), config=tu.cfg)
 
 
+# events and the argument positions that are addresses
+_ADDR_ARGS = {"STORE": (0,), "MEMSET": (0,), "MEMCPY": (0, 1), "MEMMOVE": (0, 1), "DTOR": (0,), "CTOR_COPY": (0, 1), "CTOR_MOVE": (0, 1),
+              "ASSIGN_COPY": (0, 1), "ASSIGN_MOVE": (0, 1), "SWAP": (0, 1), "CONV_COPY": (0, 1), "CONV_MOVE": (0, 1), "EQ": (0, 1), "LT": (0, 1)}
+
+
+def rule_moved_from(ck, rule="E5", fns=("w_copy_assign", "w_move_assign", "w_swap", "w_dtor")):
+    """typestate of the element: an element that was moved from owns no block (block pointer null, size 0) while its
+    pointer tuple still aims into the buffer it gave away.  Operations that the property allows on such an element
+    (assignment, swap, destruction) must not read, write, construct or destroy anything through a pointer stored in it."""
+    tu, rec = ck.tu, ck.rec
+    from .terms import walk_atoms
+    for fn in fns:
+        if not tu.has(fn) or "pre" not in tu.meta[fn]["params"] or "v" not in tu.meta[fn]["params"]:
+            continue
+        sm = tu.S(fn)
+        v = tu.arg(fn, "v")
+        # the entry-state bookkeeping fields of v (through the observer witness, not the observer copy of this witness:
+        # a bulk copy with a symbolic destination may have clobbered that as far as the memory model knows)
+        m = argmap([(tu.argidx("w_observe", "v"), tu.argidx(fn, "v"))])
+        block = deep_subst(tu.obs("w_observe", "o", "begin"), m)
+        base = Facts()
+        base.add(c_cmp("eq", block, ZERO))
+        base.add(c_cmp("eq", deep_subst(tu.obs("w_observe", "o", "mc"), m), ZERO))
+        if "w" in tu.meta[fn]["params"]:
+            base.add(c_not(c_cmp("eq", v, tu.arg(fn, "w"))))
+        for e in sm.events:
+            if e.kind == "ALLOC":
+                base.add(c_not(c_cmp("eq", e.res, ZERO)))
+        if base.infeasible():
+            rec.broken("%s %s %s: the moved-from premise is infeasible" % (tu.cfg, rule, fn))
+            continue
+        bad = []
+        n_ev = 0
+        for e in sm.events:
+            pos = _ADDR_ARGS.get(e.kind)
+            if pos is None:
+                continue
+            f = extend(base, e.guard)
+            if f.infeasible():
+                continue
+            n_ev += 1
+            for i in pos:
+                if i >= len(e.args) or not isinstance(e.args[i], Lin):
+                    continue
+                addr = simplify(e.args[i], f)
+                stale = []
+
+                def visit_lin(t, depth=0):
+                    # atoms that contribute to the VALUE of the address (not the conditions of joins)
+                    if not isinstance(t, Lin) or depth > 8:
+                        return
+                    for a in t.atoms():
+                        if a[0] == "mem" and isinstance(a[1], Lin):
+                            if a[2] == 8 and (a[1] - v).is_const():
+                                stale.append(a)
+                            visit_lin(a[1], depth + 1)
+                        elif a[0] == "gamma":
+                            visit_lin(a[2], depth + 1)
+                            visit_lin(a[3], depth + 1)
+                        else:
+                            for x in a[1:]:
+                                visit_lin(x, depth + 1)
+
+                visit_lin(addr)
+                if stale:
+                    bad.append((e, i, addr, stale[0]))
+                    break
+        rec.count("moved_from_events_examined", n_ev)
+        rec.ob(rule, not bad, {"config": tu.cfg, "witness": fn, "obligation": "with a moved-from target (no block) nothing is accessed through a pointer stored in it",
+                               "events_examined": n_ev})
+        for e, i, addr, st in bad[:2]:
+            rec.finding(rule, "%s:stale-pointer-%s[%s]" % (fn.replace("w_", ""), e.kind, ck.catkey()),
+                        "%s on a moved-from element (block pointer null): %s at %s goes through the pointer %s that the element kept from the "
+                        "buffer it gave away (at %s)" % (fn, e.kind, show(addr)[:120], show(atom(st))[:60], tu.where(sm, e)), config=tu.cfg, witness=fn)
+
+
 def rule_EQ(ck, rule="EQ1"):
     """allocator-extended construction: the new element's allocator is the one given (C08 for elements)"""
     tu, rec = ck.tu, ck.rec
